@@ -117,7 +117,7 @@ func runC01(c *core.Ctx, crashes bool) {
 			noTraceOnFailure(c, "C01", n, r, before, "MsgRecvPacket("+s.Mut+")")
 			if s.Mut != "" {
 				mutated++
-				w.Stats.Inc("byz-" + strings.SplitN(s.Mut, "-", 2)[0])
+				w.Stats.Inc("byz-" + firstTok(s.Mut))
 				if r.OK() {
 					w.Stats.Inc("byz-accepted-legit")
 				}
